@@ -91,9 +91,13 @@ def check(prog: Program, run: Run) -> None:
     _strings(prog, run)
     _terminator_width(prog, run)
     _byte_length_of_value(prog, run)
+    mask_byte_order(prog, run, "C02.R2")
     from . import c01
     from .common import run_as
     run_as(run, "C01.R7", "C02.R6", lambda r: c01._terminator(prog, r))
+    # whether the terminator is emitted at all depends on is_end_of_pdu: cleared before the
+    # items of a field, re-established for the last one only, restored at exit (part of C01.R1)
+    run_as(run, "C01.R1", "C02.R6", lambda r: c01._pairing(prog, r, only_eop=True))
     # where the bytes of a value land: relative to the origin of the enclosing object
     c01._origin_window(prog, run, "C02.R3")
     c01._probe_restores(prog, run, "C02.R3")
@@ -902,6 +906,39 @@ def _single_writer(prog: Program, run: Run) -> None:
         run.violation(R, "EncodeState.emplace_bytes", "growth",
                       "when the PDU has to grow it is not extended by zero bytes marked unused",
                       f.loc)
+
+
+def mask_byte_order(prog: Program, run: Run, R: str) -> None:
+    """BIT-MASK on byte fields: StandardLengthType converts the bytes to an integer, masks and
+    converts back. A byte field has no byte order (emplace / extract copy it as it is), so every
+    from_bytes / to_bytes in the mask helpers uses one and the same CONSTANT order -- in the
+    encoding and in the decoding direction alike."""
+    ci = prog.cls("StandardLengthType")
+    fs = [m for n, m in ci.methods.items() if n.endswith("apply_mask")]
+    if len(fs) < 2:
+        raise AnalysisError("StandardLengthType: mask helpers not found")
+    orders = []
+    for m in fs:
+        for x in walk_no_nested(m.node):
+            if isinstance(x, ast.Call) and call_name(x) in ("from_bytes", "to_bytes"):
+                a = x.args[1] if len(x.args) > 1 else next(
+                    (k.value for k in x.keywords if k.arg == "byteorder"), None)
+                orders.append((m, x, a))
+    if len(orders) < 4:
+        raise AnalysisError(f"StandardLengthType mask helpers: only {len(orders)} conversions")
+    consts = {a.value for _m, _x, a in orders if isinstance(a, ast.Constant)}
+    for m, x, a in orders:
+        C = f"StandardLengthType.{m.name}"
+        if not isinstance(a, ast.Constant) or len(consts) != 1:
+            run.violation(R, C, "mask-byte-order",
+                          f"`{ast.unparse(x)}`: the byte order used for masking a byte field is "
+                          f"`{ast.unparse(a) if a is not None else 'the default'}`; byte fields "
+                          "are stored as given, so mask and value only line up when every "
+                          f"conversion uses the same constant order (seen: {sorted(map(str, consts))})",
+                          f"{m.module.rel}:{x.lineno}", ast.unparse(x))
+        else:
+            run.ok(R, C, f"masking converts byte fields with the constant order {a.value!r}",
+                   f"{m.module.rel}:{x.lineno}")
 
 
 def _emplace_alignment(prog: Program, run: Run, R: str = "C02.R3") -> None:
